@@ -136,6 +136,14 @@ def make_market_class():
             a.comment = tag
             self._record_action(a)
 
+        def free_op(self, tag, ok=True):
+            """an operation that is not a write_func (like UniLpMarket.buy): not gated by is_open, no has_update"""
+            if not ok:
+                raise ValueError("market refuses " + tag)
+            a = ProbeAction(market=self.market_info)
+            a.comment = tag
+            self._record_action(a)
+
     return ProbeMarket
 
 
@@ -201,9 +209,17 @@ def uni_market(name, times, rec, mid):
         real_update()
 
     def op(tag, ok=True, amount=None):
+        # a write_func: add a little liquidity around the current price (refused: the wallet cannot cover it)
+        p = m.market_status.data.price
+        amt = Decimal("0.001") if ok else Decimal(10 ** 12)
+        m.add_liquidity(p * Decimal("0.9"), p * Decimal("1.1"), amt, amt * p)
+        rec.actuator.comment_last_action(tag)
+
+    def free_op(tag, ok=True):
+        # not a write_func
         m.buy(Decimal("0.001") if ok else Decimal(10 ** 12))
         rec.actuator.comment_last_action(tag)
-    m.set_market_status, m.update, m.op, m.mid = set_market_status, update, op, mid
+    m.set_market_status, m.update, m.op, m.free_op, m.mid = set_market_status, update, op, free_op, mid
     m.update_script = {}
     return m, usdc, eth
 
